@@ -46,3 +46,116 @@ Proof.
   exists f, D, x. split; [reflexivity|]. split; [exact S|]. split; [apply emit_float_value|].
   split; [intro d; apply emit_float_one_token|]. intro Hz. exact (shortest_in_interval f D x Hz S).
 Qed.
+
+(* ------------------------------------------------------------------ round64 is a nearest-float rounding, ties to even *)
+Local Arguments N.eqb : simpl never.
+Local Arguments N.leb : simpl never.
+Local Arguments N.ltb : simpl never.
+Local Arguments N.div : simpl never.
+Local Arguments N.mul : simpl never.
+Local Arguments N.add : simpl never.
+Local Arguments N.sub : simpl never.
+Local Arguments N.pow : simpl never.
+Local Arguments N.compare : simpl never.
+
+(* |A/B - mant| <= 1/2, over the naturals:  2 * |A - mant * B| <= B ;  exactly one half only with an even mant *)
+Definition near_pair (AB : N * N) (mant : N) : Prop :=
+  let '(A, B) := AB in
+  2 * (A - mant * B) <= B /\ 2 * (mant * B - A) <= B /\
+  ((2 * (A - mant * B) = B \/ 2 * (mant * B - A) = B) -> N.even mant = true).
+
+Lemma round_step A B : B <> 0 ->
+  let fl := A / B in
+  let c := (2 * (A - fl * B) ?= B) in
+  near_pair (A, B) (if round_up fl c then fl + 1 else fl).
+Proof.
+  intros HB fl c. pose proof (N.div_mod' A B) as DM. pose proof (N.mod_lt A B HB) as ML.
+  fold fl in DM. set (r := A mod B) in *.
+  assert (A - fl * B = r) as Er by lia.
+  unfold near_pair. subst c. rewrite Er.
+  destruct (2 * r ?= B) eqn:C; unfold round_up.
+  - rewrite N.compare_eq_iff in C. destruct (N.odd fl) eqn:O.
+    + assert ((fl + 1) * B - A = B - r) as E2 by nia. assert (A - (fl + 1) * B = 0) as E3 by nia.
+      rewrite E2, E3. repeat split; try lia. intros _. rewrite N.even_add. rewrite <- N.negb_odd, O. reflexivity.
+    + assert (fl * B - A = 0) as E2 by nia. rewrite Er, E2. repeat split; try lia. intros _.
+      rewrite <- N.negb_odd, O. reflexivity.
+  - rewrite N.compare_lt_iff in C. assert (fl * B - A = 0) as E2 by nia. rewrite Er, E2. repeat split; try lia.
+    intros [H|H]; lia.
+  - rewrite N.compare_gt_iff in C.
+    assert ((fl + 1) * B - A = B - r) as E2 by nia. assert (A - (fl + 1) * B = 0) as E3 by nia.
+    rewrite E2, E3. repeat split; try lia. intros [H|H]; lia.
+Qed.
+
+Lemma dec_rat_den m e : snd (dec_rat m e) <> 0.
+Proof. unfold dec_rat. destruct e; cbn [snd]; try discriminate. apply N.pow_nonzero. discriminate. Qed.
+
+Lemma scaled_pair_den v q : snd v <> 0 -> snd (scaled_pair v q) <> 0.
+Proof.
+  destruct v as [n d]. cbn [snd]. intro H. unfold scaled_pair. destruct q; cbn [snd]; try assumption;
+    apply N.neq_mul_0; split; try assumption; apply N.pow_nonzero; discriminate.
+Qed.
+
+(* what one rounding step at exponent q returns *)
+Lemma scaled_near v q fl c : snd v <> 0 -> scaled v q = (fl, c) ->
+  near_pair (scaled_pair v q) (if round_up fl c then fl + 1 else fl).
+Proof.
+  intros Hd H. unfold scaled in H. pose proof (scaled_pair_den v q Hd) as HB.
+  destruct (scaled_pair v q) as [A B]. cbn [snd] in HB. injection H as <- <-. apply round_step. exact HB.
+Qed.
+
+(* moving a mantissa of 2^53 to 2^52 at the next exponent keeps it near *)
+Lemma near_carry v q : snd v <> 0 -> near_pair (scaled_pair v q) P53 -> near_pair (scaled_pair v (q + 1)) P52.
+Proof.
+  destruct v as [n d]. cbn [snd]. intros Hd H.
+  assert (P53 = 2 * P52) as E53 by reflexivity.
+  assert (exists A B, scaled_pair (n, d) q = (A, B) /\
+          ((scaled_pair (n, d) (q + 1) = (A, 2 * B)) \/ (exists A', A = 2 * A' /\ scaled_pair (n, d) (q + 1) = (A', B)))) as (A & B & E & K).
+  { unfold scaled_pair. destruct q as [|p|p].
+    - eexists _, _. split; [reflexivity|]. left. cbn [Z.add]. change (Z.to_N 1) with 1. change (Z.to_N 0) with 0.
+      rewrite N.pow_0_r, N.pow_1_r. f_equal. lia.
+    - eexists _, _. split; [reflexivity|]. left.
+      replace (Z.pos p + 1)%Z with (Z.pos (p + 1)) by lia. cbn [Z.to_N].
+      replace (N.pos (p + 1)) with (N.succ (N.pos p)) by lia. rewrite N.pow_succ_r'. f_equal. lia.
+    - destruct (Pos.eq_dec p 1) as [->|NE].
+      + eexists _, _. split; [reflexivity|]. right. exists n. split; [change (2 ^ 1) with 2; lia|].
+        change (Z.neg 1 + 1)%Z with 0%Z. cbn [Z.to_N]. rewrite N.pow_0_r. f_equal. lia.
+      + eexists _, _. split; [reflexivity|]. right. exists (n * 2 ^ N.pos (p - 1)). split.
+        * replace (N.pos p) with (N.succ (N.pos (p - 1))) by lia. rewrite N.pow_succ_r'. lia.
+        * replace (Z.neg p + 1)%Z with (Z.neg (p - 1)) by lia. reflexivity. }
+  rewrite E in H. unfold near_pair in H. destruct H as (H1 & H2 & H3).
+  destruct K as [K|(A' & EA & K)]; rewrite K; unfold near_pair.
+  - replace (P52 * (2 * B)) with (P53 * B) by (rewrite E53; lia). repeat split; try lia.
+    intros _. reflexivity.
+  - subst A. replace (2 * A' - P53 * B) with (2 * (A' - P52 * B)) in * by (rewrite E53; lia).
+    replace (P53 * B - 2 * A') with (2 * (P52 * B - A')) in * by (rewrite E53; lia).
+    repeat split; try lia. intros _. reflexivity.
+Qed.
+
+(* ROUND64 IS A NEAREST ROUNDING: the float returned for m * 10^e is within half a unit in its last place of the value
+   (exactly half only when its mantissa is even), and its exponent is in the binary64 range *)
+Theorem round64_nearest m e mant q : m <> 0 -> round64 m e = Some (mant, q) ->
+  near_pair (scaled_pair (dec_rat m e) q) mant /\ (MIN_Q <= q <= MAX_Q)%Z.
+Proof.
+  intros Hm. unfold round64. apply N.eqb_neq in Hm. rewrite Hm.
+  set (v := dec_rat m e). pose proof (dec_rat_den m e) as Hd. fold v in Hd.
+  set (q0 := (Z.of_N (N.log2 (fst v)) - Z.of_N (N.log2 (snd v)) - 52)%Z).
+  (* whichever of the three exponents is picked, the pair is (q', scaled v q') with q' >= MIN_Q *)
+  assert (forall qq, exists q', (Z.max qq MIN_Q, scaled v (Z.max qq MIN_Q)) = (q', scaled v q') /\ (MIN_Q <= q')%Z) as PK.
+  { intro qq. exists (Z.max qq MIN_Q). split; [reflexivity | lia]. }
+  assert (exists q', (let '(q1, (f1, c1)) := (Z.max q0 MIN_Q, scaled v (Z.max q0 MIN_Q)) in
+                      if P53 <=? f1 then (Z.max (q1 + 1) MIN_Q, scaled v (Z.max (q1 + 1) MIN_Q))
+                      else if (f1 <? P52) && (MIN_Q <? q1)%Z then (Z.max (q1 - 1) MIN_Q, scaled v (Z.max (q1 - 1) MIN_Q))
+                      else (q1, (f1, c1))) = (q', scaled v q') /\ (MIN_Q <= q')%Z) as (q' & EP & Hq').
+  { destruct (scaled v (Z.max q0 MIN_Q)) as [f1 c1] eqn:S1.
+    destruct (P53 <=? f1); [apply PK|]. destruct ((f1 <? P52) && (MIN_Q <? Z.max q0 MIN_Q)%Z); [apply PK|].
+    exists (Z.max q0 MIN_Q). rewrite S1. split; [reflexivity | lia]. }
+  rewrite EP. destruct (scaled v q') as [fl c] eqn:S.
+  pose proof (scaled_near v q' fl c Hd S) as NP.
+  set (mant0 := if round_up fl c then fl + 1 else fl) in *.
+  destruct (mant0 =? P53) eqn:C53.
+  - apply N.eqb_eq in C53. rewrite C53 in NP.
+    destruct (MAX_Q <? q' + 1)%Z eqn:OV; [discriminate|]. intro H. injection H as <- <-.
+    split; [exact (near_carry v q' Hd NP)|]. apply Z.ltb_ge in OV. lia.
+  - destruct (MAX_Q <? q')%Z eqn:OV; [discriminate|]. intro H. injection H as <- <-.
+    split; [exact NP|]. apply Z.ltb_ge in OV. lia.
+Qed.
